@@ -1,6 +1,6 @@
 /-
   PINS of property C08: the decision tokens of every item the property is anchored in
-  (properties.jsonl `anchors` + tools/anchor_extra.json), as they were in /repo at b30ed81 when the
+  (properties.jsonl `anchors` + tools/anchor_extra.json), as they were in /repo at 32de816 when the
   model was validated against the source.  Written by tools/pin_anchors.py; the right-hand sides are
   compared by the kernel with lean/Chrono/Extracted/Anchors.lean, which tools/extractors/anchors.py
   regenerates from /repo's working tree on every check.  A theorem that fails here means: anchored
@@ -10,13 +10,37 @@ import Chrono.Extracted.Anchors
 namespace Chrono.Pins.C08
 open Chrono.Extracted.Anchors
 
+/-- src/datetime/mod.rs:fn checked_add_months -/
+theorem src_datetime_mod_rs_fn_checked_add_months : C08_src_datetime_mod_rs_fn_checked_add_months =
+    ["self", "v1", "Months", "->", "Option", "<", "DateTime", "<", "Tz", ">>", "self", "overflowing_naive_local(", "checked_add_months(", "v1", "?", "and_local_timezone(", "Tz", "from_offset(", "&", "self", "v2", "single("] := by decide +kernel
+
+/-- src/datetime/mod.rs:fn checked_sub_months -/
+theorem src_datetime_mod_rs_fn_checked_sub_months : C08_src_datetime_mod_rs_fn_checked_sub_months =
+    ["self", "v1", "Months", "->", "Option", "<", "DateTime", "<", "Tz", ">>", "self", "overflowing_naive_local(", "checked_sub_months(", "v1", "?", "and_local_timezone(", "Tz", "from_offset(", "&", "self", "v2", "single("] := by decide +kernel
+
 /-- src/datetime/mod.rs:fn years_since -/
 theorem src_datetime_mod_rs_fn_years_since : C08_src_datetime_mod_rs_fn_years_since =
     ["&", "self", "v1", "Self", "->", "Option", "<", "u32", ">", "v2", "self", "year(", "-", "v1", "year(", "v3", "self", "month(", "self", "day(", "self", "time(", "<", "v1", "month(", "v1", "day(", "v1", "time(", "v2", "-=", "match", "v3", "true", "=>", "1", "false", "=>", "0", "match", "v2", ">=", "0", "true", "=>", "Some(", "v2", "as", "u32", "false", "=>", "None"] := by decide +kernel
 
+/-- src/datetime/mod.rs:impl Datelike for DateTime -/
+theorem src_datetime_mod_rs_impl_Datelike_for_DateTime : C08_src_datetime_mod_rs_impl_Datelike_for_DateTime =
+    ["<", "Tz", "TimeZone", ">", "Datelike", "for", "DateTime", "<", "Tz", ">", "year(", "&", "self", "->", "i32", "self", "overflowing_naive_local(", "year(", "month(", "&", "self", "->", "u32", "self", "overflowing_naive_local(", "month(", "month0(", "&", "self", "->", "u32", "self", "overflowing_naive_local(", "month0(", "day(", "&", "self", "->", "u32", "self", "overflowing_naive_local(", "day(", "day0(", "&", "self", "->", "u32", "self", "overflowing_naive_local(", "day0(", "ordinal(", "&", "self", "->", "u32", "self", "overflowing_naive_local(", "ordinal(", "ordinal0(", "&", "self", "->", "u32", "self", "overflowing_naive_local(", "ordinal0(", "weekday(", "&", "self", "->", "Weekday", "self", "overflowing_naive_local(", "weekday(", "iso_week(", "&", "self", "->", "IsoWeek", "self", "overflowing_naive_local(", "iso_week(", "with_year(", "&", "self", "v1", "i32", "->", "Option", "<", "DateTime", "<", "Tz", ">>", "map_local(", "self", "|", "v2", "|", "match", "v2", "year(", "==", "v1", "true", "=>", "Some(", "v2", "false", "=>", "v2", "with_year(", "v1", "with_month(", "&", "self", "v3", "u32", "->", "Option", "<", "DateTime", "<", "Tz", ">>", "map_local(", "self", "|", "v4", "|", "v4", "with_month(", "v3", "with_month0(", "&", "self", "v5", "u32", "->", "Option", "<", "DateTime", "<", "Tz", ">>", "map_local(", "self", "|", "v4", "|", "v4", "with_month0(", "v5", "with_day(", "&", "self", "v6", "u32", "->", "Option", "<", "DateTime", "<", "Tz", ">>", "map_local(", "self", "|", "v4", "|", "v4", "with_day(", "v6", "with_day0(", "&", "self", "v7", "u32", "->", "Option", "<", "DateTime", "<", "Tz", ">>", "map_local(", "self", "|", "v4", "|", "v4", "with_day0(", "v7", "with_ordinal(", "&", "self", "v8", "u32", "->", "Option", "<", "DateTime", "<", "Tz", ">>", "map_local(", "self", "|", "v4", "|", "v4", "with_ordinal(", "v8", "with_ordinal0(", "&", "self", "v9", "u32", "->", "Option", "<", "DateTime", "<", "Tz", ">>", "map_local(", "self", "|", "v4", "|", "v4", "with_ordinal0(", "v9"] := by decide +kernel
+
+/-- src/datetime/mod.rs:impl Months -/
+theorem src_datetime_mod_rs_impl_Months : C08_src_datetime_mod_rs_impl_Months =
+    ["<", "Tz", "TimeZone", ">", "Add", "<", "Months", ">", "for", "DateTime", "<", "Tz", ">", "Output", "DateTime", "<", "Tz", ">", "add(", "self", "v1", "Months", "->", "Self", "Output", "self", "checked_add_months(", "v1", "expect(", "\"…\"", "§", "<", "Tz", "TimeZone", ">", "Sub", "<", "Months", ">", "for", "DateTime", "<", "Tz", ">", "Output", "DateTime", "<", "Tz", ">", "sub(", "self", "v1", "Months", "->", "Self", "Output", "self", "checked_sub_months(", "v1", "expect(", "\"…\""] := by decide +kernel
+
+/-- src/datetime/mod.rs:impl Timelike for DateTime -/
+theorem src_datetime_mod_rs_impl_Timelike_for_DateTime : C08_src_datetime_mod_rs_impl_Timelike_for_DateTime =
+    ["<", "Tz", "TimeZone", ">", "Timelike", "for", "DateTime", "<", "Tz", ">", "hour(", "&", "self", "->", "u32", "self", "overflowing_naive_local(", "hour(", "minute(", "&", "self", "->", "u32", "self", "overflowing_naive_local(", "minute(", "second(", "&", "self", "->", "u32", "self", "overflowing_naive_local(", "second(", "nanosecond(", "&", "self", "->", "u32", "self", "overflowing_naive_local(", "nanosecond(", "with_hour(", "&", "self", "v1", "u32", "->", "Option", "<", "DateTime", "<", "Tz", ">>", "map_local(", "self", "|", "v2", "|", "v2", "with_hour(", "v1", "with_minute(", "&", "self", "v3", "u32", "->", "Option", "<", "DateTime", "<", "Tz", ">>", "map_local(", "self", "|", "v2", "|", "v2", "with_minute(", "v3", "with_second(", "&", "self", "v4", "u32", "->", "Option", "<", "DateTime", "<", "Tz", ">>", "map_local(", "self", "|", "v2", "|", "v2", "with_second(", "v4", "with_nanosecond(", "&", "self", "v5", "u32", "->", "Option", "<", "DateTime", "<", "Tz", ">>", "map_local(", "self", "|", "v2", "|", "v2", "with_nanosecond(", "v5"] := by decide +kernel
+
 /-- src/month.rs:fn num_days -/
 theorem src_month_rs_fn_num_days : C08_src_month_rs_fn_num_days =
     ["&", "self", "v1", "i32", "->", "Option", "<", "u8", ">", "Some(", "match", "*", "self", "Month", "January", "=>", "31", "Month", "February", "=>", "match", "NaiveDate", "from_ymd_opt(", "v1", "2", "1", "?", "leap_year(", "true", "=>", "29", "false", "=>", "28", "Month", "March", "=>", "31", "Month", "April", "=>", "30", "Month", "May", "=>", "31", "Month", "June", "=>", "30", "Month", "July", "=>", "31", "Month", "August", "=>", "31", "Month", "September", "=>", "30", "Month", "October", "=>", "31", "Month", "November", "=>", "30", "Month", "December", "=>", "31"] := by decide +kernel
+
+/-- src/month.rs:impl Months -/
+theorem src_month_rs_impl_Months : C08_src_month_rs_impl_Months =
+    ["Months", "new(", "v1", "u32", "->", "Self", "Self(", "v1", "as_u32(", "&", "self", "->", "u32", "self"] := by decide +kernel
 
 /-- src/naive/date/mod.rs:fn checked_add_months -/
 theorem src_naive_date_mod_rs_fn_checked_add_months : C08_src_naive_date_mod_rs_fn_checked_add_months =
@@ -30,9 +54,17 @@ theorem src_naive_date_mod_rs_fn_checked_sub_months : C08_src_naive_date_mod_rs_
 theorem src_naive_date_mod_rs_fn_diff_months : C08_src_naive_date_mod_rs_fn_diff_months =
     ["self", "v1", "i32", "->", "Option", "<", "Self", ">", "v1", "try_opt!(", "self", "year(", "*", "12", "+", "self", "month(", "as", "i32", "-", "1", "checked_add(", "v1", "v2", "v1", "div_euclid(", "12", "v3", "v1", "rem_euclid(", "12", "as", "u32", "+", "1", "v4", "YearFlags", "from_year(", "v2", "v5", "if", "v4", "ndays(", "==", "366", "29", "else", "28", "v6", "31", "v5", "31", "30", "31", "30", "31", "31", "30", "31", "30", "31", "v7", "v6", "v3", "-", "1", "as", "usize", "v8", "self", "day(", "if", "v8", ">", "v7", "v8", "v7", "NaiveDate", "from_ymd_opt(", "v2", "v3", "v8"] := by decide +kernel
 
+/-- src/naive/date/mod.rs:fn from_weekday_of_month -/
+theorem src_naive_date_mod_rs_fn_from_weekday_of_month : C08_src_naive_date_mod_rs_fn_from_weekday_of_month =
+    ["v1", "i32", "v2", "u32", "v3", "Weekday", "v4", "u8", "->", "NaiveDate", "expect(", "NaiveDate", "from_weekday_of_month_opt(", "v1", "v2", "v3", "v4", "\"…\""] := by decide +kernel
+
 /-- src/naive/date/mod.rs:fn from_weekday_of_month_opt -/
 theorem src_naive_date_mod_rs_fn_from_weekday_of_month_opt : C08_src_naive_date_mod_rs_fn_from_weekday_of_month_opt =
     ["v1", "i32", "v2", "u32", "v3", "Weekday", "v4", "u8", "->", "Option", "<", "NaiveDate", ">", "if", "v4", "==", "0", "return", "None", "v5", "try_opt!(", "NaiveDate", "from_ymd_opt(", "v1", "v2", "1", "weekday(", "v6", "7", "+", "v3", "number_from_monday(", "-", "v5", "number_from_monday(", "%", "7", "v7", "v4", "-", "1", "as", "u32", "*", "7", "+", "v6", "+", "1", "NaiveDate", "from_ymd_opt(", "v1", "v2", "v7"] := by decide +kernel
+
+/-- src/naive/date/mod.rs:fn week -/
+theorem src_naive_date_mod_rs_fn_week : C08_src_naive_date_mod_rs_fn_week =
+    ["&", "self", "v1", "Weekday", "->", "NaiveWeek", "NaiveWeek", "new(", "*", "self", "v1"] := by decide +kernel
 
 /-- src/naive/date/mod.rs:fn with_day -/
 theorem src_naive_date_mod_rs_fn_with_day : C08_src_naive_date_mod_rs_fn_with_day =
@@ -70,6 +102,30 @@ theorem src_naive_date_mod_rs_fn_with_year : C08_src_naive_date_mod_rs_fn_with_y
 theorem src_naive_date_mod_rs_fn_years_since : C08_src_naive_date_mod_rs_fn_years_since =
     ["&", "self", "v1", "Self", "->", "Option", "<", "u32", ">", "v2", "self", "year(", "-", "v1", "year(", "if(", "self", "month(", "<<", "5", "|", "self", "day(", "<", "v1", "month(", "<<", "5", "|", "v1", "day(", "v2", "-=", "1", "match", "v2", ">=", "0", "true", "=>", "Some(", "v2", "as", "u32", "false", "=>", "None"] := by decide +kernel
 
+/-- src/naive/date/mod.rs:impl Months -/
+theorem src_naive_date_mod_rs_impl_Months : C08_src_naive_date_mod_rs_impl_Months =
+    ["Add", "<", "Months", ">", "for", "NaiveDate", "Output", "NaiveDate", "add(", "self", "v1", "Months", "->", "Self", "Output", "self", "checked_add_months(", "v1", "expect(", "\"…\"", "§", "Sub", "<", "Months", ">", "for", "NaiveDate", "Output", "NaiveDate", "sub(", "self", "v1", "Months", "->", "Self", "Output", "self", "checked_sub_months(", "v1", "expect(", "\"…\""] := by decide +kernel
+
+/-- src/naive/datetime/mod.rs:fn checked_add_months -/
+theorem src_naive_datetime_mod_rs_fn_checked_add_months : C08_src_naive_datetime_mod_rs_fn_checked_add_months =
+    ["self", "v1", "Months", "->", "Option", "<", "NaiveDateTime", ">", "Some(", "Self", "v2", "try_opt!(", "self", "v2", "checked_add_months(", "v1", "v3", "self", "v3"] := by decide +kernel
+
+/-- src/naive/datetime/mod.rs:fn checked_sub_months -/
+theorem src_naive_datetime_mod_rs_fn_checked_sub_months : C08_src_naive_datetime_mod_rs_fn_checked_sub_months =
+    ["self", "v1", "Months", "->", "Option", "<", "NaiveDateTime", ">", "Some(", "Self", "v2", "try_opt!(", "self", "v2", "checked_sub_months(", "v1", "v3", "self", "v3"] := by decide +kernel
+
+/-- src/naive/datetime/mod.rs:impl Datelike for NaiveDateTime -/
+theorem src_naive_datetime_mod_rs_impl_Datelike_for_NaiveDateTime : C08_src_naive_datetime_mod_rs_impl_Datelike_for_NaiveDateTime =
+    ["Datelike", "for", "NaiveDateTime", "year(", "&", "self", "->", "i32", "self", "v1", "year(", "month(", "&", "self", "->", "u32", "self", "v1", "month(", "month0(", "&", "self", "->", "u32", "self", "v1", "month0(", "day(", "&", "self", "->", "u32", "self", "v1", "day(", "day0(", "&", "self", "->", "u32", "self", "v1", "day0(", "ordinal(", "&", "self", "->", "u32", "self", "v1", "ordinal(", "ordinal0(", "&", "self", "->", "u32", "self", "v1", "ordinal0(", "weekday(", "&", "self", "->", "Weekday", "self", "v1", "weekday(", "iso_week(", "&", "self", "->", "IsoWeek", "self", "v1", "iso_week(", "with_year(", "&", "self", "v2", "i32", "->", "Option", "<", "NaiveDateTime", ">", "self", "v1", "with_year(", "v2", "map(", "|", "v3", "|", "NaiveDateTime", "v1", "v3", "..", "*", "self", "with_month(", "&", "self", "v4", "u32", "->", "Option", "<", "NaiveDateTime", ">", "self", "v1", "with_month(", "v4", "map(", "|", "v3", "|", "NaiveDateTime", "v1", "v3", "..", "*", "self", "with_month0(", "&", "self", "v5", "u32", "->", "Option", "<", "NaiveDateTime", ">", "self", "v1", "with_month0(", "v5", "map(", "|", "v3", "|", "NaiveDateTime", "v1", "v3", "..", "*", "self", "with_day(", "&", "self", "v6", "u32", "->", "Option", "<", "NaiveDateTime", ">", "self", "v1", "with_day(", "v6", "map(", "|", "v3", "|", "NaiveDateTime", "v1", "v3", "..", "*", "self", "with_day0(", "&", "self", "v7", "u32", "->", "Option", "<", "NaiveDateTime", ">", "self", "v1", "with_day0(", "v7", "map(", "|", "v3", "|", "NaiveDateTime", "v1", "v3", "..", "*", "self", "with_ordinal(", "&", "self", "v8", "u32", "->", "Option", "<", "NaiveDateTime", ">", "self", "v1", "with_ordinal(", "v8", "map(", "|", "v3", "|", "NaiveDateTime", "v1", "v3", "..", "*", "self", "with_ordinal0(", "&", "self", "v9", "u32", "->", "Option", "<", "NaiveDateTime", ">", "self", "v1", "with_ordinal0(", "v9", "map(", "|", "v3", "|", "NaiveDateTime", "v1", "v3", "..", "*", "self"] := by decide +kernel
+
+/-- src/naive/datetime/mod.rs:impl Months -/
+theorem src_naive_datetime_mod_rs_impl_Months : C08_src_naive_datetime_mod_rs_impl_Months =
+    ["Add", "<", "Months", ">", "for", "NaiveDateTime", "Output", "NaiveDateTime", "add(", "self", "v1", "Months", "->", "Self", "Output", "self", "checked_add_months(", "v1", "expect(", "\"…\"", "§", "Sub", "<", "Months", ">", "for", "NaiveDateTime", "Output", "NaiveDateTime", "sub(", "self", "v1", "Months", "->", "Self", "Output", "self", "checked_sub_months(", "v1", "expect(", "\"…\""] := by decide +kernel
+
+/-- src/naive/datetime/mod.rs:impl Timelike for NaiveDateTime -/
+theorem src_naive_datetime_mod_rs_impl_Timelike_for_NaiveDateTime : C08_src_naive_datetime_mod_rs_impl_Timelike_for_NaiveDateTime =
+    ["Timelike", "for", "NaiveDateTime", "hour(", "&", "self", "->", "u32", "self", "v1", "hour(", "minute(", "&", "self", "->", "u32", "self", "v1", "minute(", "second(", "&", "self", "->", "u32", "self", "v1", "second(", "nanosecond(", "&", "self", "->", "u32", "self", "v1", "nanosecond(", "with_hour(", "&", "self", "v2", "u32", "->", "Option", "<", "NaiveDateTime", ">", "self", "v1", "with_hour(", "v2", "map(", "|", "v3", "|", "NaiveDateTime", "v1", "v3", "..", "*", "self", "with_minute(", "&", "self", "v4", "u32", "->", "Option", "<", "NaiveDateTime", ">", "self", "v1", "with_minute(", "v4", "map(", "|", "v3", "|", "NaiveDateTime", "v1", "v3", "..", "*", "self", "with_second(", "&", "self", "v5", "u32", "->", "Option", "<", "NaiveDateTime", ">", "self", "v1", "with_second(", "v5", "map(", "|", "v3", "|", "NaiveDateTime", "v1", "v3", "..", "*", "self", "with_nanosecond(", "&", "self", "v6", "u32", "->", "Option", "<", "NaiveDateTime", ">", "self", "v1", "with_nanosecond(", "v6", "map(", "|", "v3", "|", "NaiveDateTime", "v1", "v3", "..", "*", "self"] := by decide +kernel
+
 /-- src/naive/internals.rs:fn ordinal -/
 theorem src_naive_internals_rs_fn_ordinal : C08_src_naive_internals_rs_fn_ordinal =
     ["&", "self", "->", "Option", "<", "u32", ">", "v1", "self", ">>", "3", "match", "MDL_TO_OL", "v1", "as", "usize", "XX", "=>", "None", "v2", "=>", "Some(", "v1", "-", "v2", "as", "u8", "as", "u32", ">>", "1"] := by decide +kernel
@@ -98,6 +154,18 @@ theorem src_naive_mod_rs_fn_checked_first_day : C08_src_naive_mod_rs_fn_checked_
 theorem src_naive_mod_rs_fn_checked_last_day : C08_src_naive_mod_rs_fn_checked_last_day =
     ["&", "self", "->", "Option", "<", "NaiveDate", ">", "v1", "self", "v2", "pred(", "num_days_from_monday(", "as", "i32", "v3", "self", "v4", "weekday(", "num_days_from_monday(", "as", "i32", "v5", "v1", "-", "v3", "+", "if", "v1", "<", "v3", "7", "else", "0", "self", "v4", "add_days(", "v5"] := by decide +kernel
 
+/-- src/naive/mod.rs:fn days -/
+theorem src_naive_mod_rs_fn_days : C08_src_naive_mod_rs_fn_days =
+    ["&", "self", "->", "RangeInclusive", "<", "NaiveDate", ">", "match", "self", "checked_days(", "Some(", "v1", "=>", "v1", "None", "=>", "panic!(", "\"{}\"", "\"…\""] := by decide +kernel
+
+/-- src/naive/mod.rs:fn first_day -/
+theorem src_naive_mod_rs_fn_first_day : C08_src_naive_mod_rs_fn_first_day =
+    ["&", "self", "->", "NaiveDate", "expect(", "self", "checked_first_day(", "\"…\""] := by decide +kernel
+
+/-- src/naive/mod.rs:fn last_day -/
+theorem src_naive_mod_rs_fn_last_day : C08_src_naive_mod_rs_fn_last_day =
+    ["&", "self", "->", "NaiveDate", "expect(", "self", "checked_last_day(", "\"…\""] := by decide +kernel
+
 /-- src/naive/time/mod.rs:fn with_hour -/
 theorem src_naive_time_mod_rs_fn_with_hour : C08_src_naive_time_mod_rs_fn_with_hour =
     ["&", "self", "v1", "u32", "->", "Option", "<", "NaiveTime", ">", "if", "v1", ">=", "24", "return", "None", "v2", "v1", "*", "3600", "+", "self", "v2", "%", "3600", "Some(", "NaiveTime", "v2", "..", "*", "self"] := by decide +kernel
@@ -125,6 +193,18 @@ theorem src_traits_rs_fn_quarter : C08_src_traits_rs_fn_quarter =
 /-- src/traits.rs:fn year_ce -/
 theorem src_traits_rs_fn_year_ce : C08_src_traits_rs_fn_year_ce =
     ["&", "self", "->", "bool", "u32", "v1", "self", "year(", "if", "v1", "<", "1", "false", "1", "-", "v1", "as", "u32", "else", "true", "v1", "as", "u32"] := by decide +kernel
+
+/-- callee src/datetime/mod.rs:fn from_naive_utc_and_offset -/
+theorem callee_src_datetime_mod_rs_fn_from_naive_utc_and_offset : C08_callee_src_datetime_mod_rs_fn_from_naive_utc_and_offset =
+    ["v1", "NaiveDateTime", "v2", "Tz", "Offset", "->", "DateTime", "<", "Tz", ">", "DateTime", "v1", "v2"] := by decide +kernel
+
+/-- callee src/datetime/mod.rs:fn overflowing_naive_local -/
+theorem callee_src_datetime_mod_rs_fn_overflowing_naive_local : C08_callee_src_datetime_mod_rs_fn_overflowing_naive_local =
+    ["&", "self", "->", "NaiveDateTime", "self", "v1", "overflowing_add_offset(", "self", "v2", "fix("] := by decide +kernel
+
+/-- callee src/month.rs:fn as_u32 -/
+theorem callee_src_month_rs_fn_as_u32 : C08_callee_src_month_rs_fn_as_u32 =
+    ["&", "self", "->", "u32", "self"] := by decide +kernel
 
 /-- callee src/month.rs:fn from_u32 -/
 theorem callee_src_month_rs_fn_from_u32 : C08_callee_src_month_rs_fn_from_u32 =
@@ -170,6 +250,14 @@ theorem callee_src_naive_date_mod_rs_fn_yo_to_cycle : C08_callee_src_naive_date_
 theorem callee_src_naive_date_mod_rs_fn_yof : C08_callee_src_naive_date_mod_rs_fn_yof =
     ["&", "self", "->", "i32", "self", "v1", "get("] := by decide +kernel
 
+/-- callee src/naive/datetime/mod.rs:fn and_local_timezone -/
+theorem callee_src_naive_datetime_mod_rs_fn_and_local_timezone : C08_callee_src_naive_datetime_mod_rs_fn_and_local_timezone =
+    ["<", "Tz", "TimeZone", ">", "&", "self", "v1", "Tz", "->", "MappedLocalTime", "<", "DateTime", "<", "Tz", ">>", "v1", "from_local_datetime(", "self"] := by decide +kernel
+
+/-- callee src/naive/datetime/mod.rs:fn checked_sub_offset -/
+theorem callee_src_naive_datetime_mod_rs_fn_checked_sub_offset : C08_callee_src_naive_datetime_mod_rs_fn_checked_sub_offset =
+    ["self", "v1", "FixedOffset", "->", "Option", "<", "NaiveDateTime", ">", "let(", "v2", "v3", "self", "v2", "overflowing_sub_offset(", "v1", "v4", "match", "v3", "-", "1", "=>", "try_opt!(", "self", "v4", "pred_opt(", "1", "=>", "try_opt!(", "self", "v4", "succ_opt(", "v5", "=>", "self", "v4", "Some(", "NaiveDateTime", "v4", "v2"] := by decide +kernel
+
 /-- callee src/naive/internals.rs:fn from_ol -/
 theorem callee_src_naive_internals_rs_fn_from_ol : C08_callee_src_naive_internals_rs_fn_from_ol =
     ["v1", "i32", "YearFlags(", "v2", "YearFlags", "->", "Mdf", "debug_assert!(", "v1", ">", "1", "&&", "v1", "<=", "MAX_OL", "as", "i32", "Mdf(", "v1", "as", "u32", "+", "OL_TO_MDL", "v1", "as", "usize", "as", "u32", "<<", "3", "|", "v2", "as", "u32"] := by decide +kernel
@@ -189,6 +277,10 @@ theorem callee_src_naive_internals_rs_fn_ndays : C08_callee_src_naive_internals_
 /-- callee src/naive/internals.rs:fn ordinal_and_flags -/
 theorem callee_src_naive_internals_rs_fn_ordinal_and_flags : C08_callee_src_naive_internals_rs_fn_ordinal_and_flags =
     ["&", "self", "->", "Option", "<", "i32", ">", "v1", "self", ">>", "3", "match", "MDL_TO_OL", "v1", "as", "usize", "XX", "=>", "None", "v2", "=>", "Some(", "self", "as", "i32", "-", "v2", "as", "i32", "<<", "3"] := by decide +kernel
+
+/-- callee src/offset/mod.rs:fn from_local_datetime -/
+theorem callee_src_offset_mod_rs_fn_from_local_datetime : C08_callee_src_offset_mod_rs_fn_from_local_datetime =
+    ["&", "self", "v1", "&", "NaiveDateTime", "->", "MappedLocalTime", "<", "DateTime", "<", "Self", ">>", "self", "offset_from_local_datetime(", "v1", "and_then(", "|", "v2", "|", "v1", "checked_sub_offset(", "v2", "fix(", "map(", "|", "v3", "|", "DateTime", "from_naive_utc_and_offset(", "v3", "v2"] := by decide +kernel
 
 /-- callee src/weekday.rs:fn days_since -/
 theorem callee_src_weekday_rs_fn_days_since : C08_callee_src_weekday_rs_fn_days_since =
